@@ -414,20 +414,27 @@ def splice_fn(src, item, ann):
     for (nth, needle, params, ret, ctext) in ann.get('closures') or []:
         # X10: an inline closure `|x| expr` gets its parameter / return types and a ghost contract:
         #      `|x: T| -> (r: U) ensures .. { expr }` (the body expression is kept verbatim)
-        pos, cnt, st0 = -1, 0, 0
-        while True:
-            pos = body.find(needle, st0)
-            if pos < 0: break
-            cnt += 1
-            if cnt == nth: break
-            st0 = pos + 1
-        if pos < 0:
-            raise ExtractError('lost anchor: %s::%s: closure %r #%d not found' % (src.rel, item.name, needle, nth))
         b1 = needle.find('|'); b2 = needle.find('|', b1 + 1)
         if b1 < 0 or b2 < 0:
             raise ExtractError('bad closure needle %r' % needle)
         expr = needle[b2 + 1:].strip()
-        repls.append((pos, pos + len(needle), '|%s| -> (%s)\n%s\n{ %s }' % (params, ret, ctext.rstrip(), expr)))
+        rep = '|%s| -> (%s)\n%s\n{ %s }' % (params, ret, ctext.rstrip(), expr)
+        # nth == 0: every occurrence (at least one); otherwise the nth one
+        found, st0 = [], 0
+        while True:
+            pos = body.find(needle, st0)
+            if pos < 0: break
+            found.append(pos)
+            st0 = pos + 1
+        if nth == 0:
+            if not found:
+                raise ExtractError('lost anchor: %s::%s: closure %r not found' % (src.rel, item.name, needle))
+            for pos in found: repls.append((pos, pos + len(needle), rep))
+        else:
+            if len(found) < nth:
+                raise ExtractError('lost anchor: %s::%s: closure %r #%d not found' % (src.rel, item.name, needle, nth))
+            pos = found[nth - 1]
+            repls.append((pos, pos + len(needle), rep))
     allx = [(o, o, t) for (o, t) in edits] + repls
     for a, b, text in sorted(allx, key=lambda e: (-e[0], -e[1])):
         body = body[:a] + text + body[b:]
